@@ -14,5 +14,46 @@ func TestWorker(t *testing.T) {
 	if os.Getenv("VERIF_JOB") == "" {
 		t.Skip("not started by cmd/check")
 	}
+	for _, prop := range []string{"C05", "C07", "C08", "C09", "C12", "C13"} {
+		withTyped(Scenarios[prop])
+	}
 	driver.RunWorker(t, Scenarios)
+}
+
+// withTyped mixes the typed variants (typed.go) into a property's scenario:
+// about one random plan in twenty-five runs the property's stages over another
+// element type.
+func withTyped(sc *driver.Scenario) {
+	gen, build, final, valid, post := sc.Gen, sc.Build, sc.Final, sc.Valid, sc.Post
+	prop := sc.Prop
+	sc.Gen = func(r *driver.Rand, thorough bool) *driver.Plan {
+		if r.Chance(1, 25) {
+			return genTyped(r, prop)
+		}
+		return gen(r, thorough)
+	}
+	sc.Build = func(e *driver.Env) {
+		if e.Plan.Stage == "typed" {
+			typedBuild(e)
+			return
+		}
+		build(e)
+	}
+	sc.Final = func(e *driver.Env) {
+		if e.Plan.Stage == "typed" {
+			typedFinal(e)
+			return
+		}
+		final(e)
+	}
+	if valid != nil {
+		sc.Valid = func(p *driver.Plan) bool { return p.Stage == "typed" || valid(p) }
+	}
+	if post != nil {
+		sc.Post = func(e *driver.Env) {
+			if e.Plan.Stage != "typed" {
+				post(e)
+			}
+		}
+	}
 }
